@@ -71,6 +71,10 @@ pub fn leak_scan(pats: &[(String, Vec<u8>)], hay: &[u8]) -> Option<String> {
 
 /// run a scenario on the real server and emit one `srv` case line
 pub fn run_scenario(out: &mut Out, sc: Scenario) {
+    if !out.mine() {
+        out.skip();
+        return;
+    }
     let cfg_str = format!(
         "seed={},batch={},fault={},stats={},log={},sentinel={},tag={}",
         hex(&sc.cfg.seed), sc.cfg.batch, sc.cfg.fault, if sc.cfg.per_client { "per" } else { "agg" },
@@ -465,7 +469,7 @@ pub fn run(ctx: &Ctx) {
     quiet_panics();
     install_logger();
     let mode = ctx.rest.get(0).map(|s| s.as_str()).unwrap_or("mixed").to_string();
-    let mut out = Out::new();
+    let mut out = Out::sharded(ctx.shard);
     let mut r = Rng::new(ctx.seed ^ 0x5352_5600 ^ (mode.len() as u64 * 7919));
     let t = ctx.thorough;
     match mode.as_str() {
